@@ -118,11 +118,22 @@ def rule_options(ctx, repo):
 
 def rule_constructors(ctx, repo):
     """Config(...) -> load(rc) -> add(defaults) in the three base constructors; subclasses add after the base call."""
-    for cname, path, ctor in (("System", SYSTEM, "self.config = Config(self.__class__.__name__, dct=config)"),
-                              ("BaseRoutine", BASE, "self.config = Config(self.class_name)"),
-                              ("Model", MODEL, "self.config = Config(name=self.class_name)")):
+    for cname, path, userdict in (("System", SYSTEM, "config"), ("BaseRoutine", BASE, None), ("Model", MODEL, None)):
         f = F.method(repo, cname, "__init__", path)
-        mk = [n for n in f.g.nodes() if f.g.data(n)["kind"] == "stmt" and Q.match(ctor, f.g.data(n)["ast"])]
+        mk, early = [], []
+        for n in f.g.nodes():
+            a = f.g.data(n).get("ast") if f.g.data(n)["kind"] == "stmt" else None
+            if isinstance(a, ast.Assign) and dotted(a.targets[0]) == "self.config" and isinstance(a.value, ast.Call) and dotted(a.value.func) == "Config":
+                mk.append(n)
+                # anything beyond the name handed to the constructor is add()ed BEFORE load(): only the user's dictionary may be
+                extra = [x for x in a.value.args[1:]] + [k.value for k in a.value.keywords if k.arg != "name"]
+                early += [src(x) for x in extra if not (userdict and isinstance(x, ast.Name) and x.id == userdict)]
+        if early:
+            ctx.violation("C20.typestate", "%s.__init__/ctor-args" % cname,
+                          "Config(...) is constructed with %s: these entries are added before the rc object is loaded and, because "
+                          "load() never overwrites, win over file and option values" % ", ".join(early), f.W())
+        else:
+            ctx.ok("C20.typestate", "%s.__init__/ctor-args" % cname, "nothing but the name%s precedes load()" % (" and the user dictionary" if userdict else ""))
         ld = f.calls("self.config.load")
         ad = f.calls("self.config.add", exact=True) + f.calls("self.config.add_extra", exact=True)
         ok = bool(mk and ld and ad) and f.before(mk, ld)[0] and all(not f.g.reachable(a, l) for a in ad for l in ld)
@@ -259,12 +270,93 @@ def rule_roundtrip(ctx, repo, defaults):
               "; ".join(bad[:5]) + (" (+%d more)" % (len(bad) - 5) if len(bad) > 5 else ""), COMMON)
     ctx.count("defaults", n)
     c = F.method(repo, "System", "collect_config", SYSTEM)
-    ok = Q.has("config_dict[self.__class__.__name__] = self.config.as_dict()", c.fn) and \
-        Q.has("$all = OrderedDict(list(self.routines.items()) + list(self.models.items()))", c.fn)
+    own = [n for n in walk_noscope(c.fn) if isinstance(n, ast.Assign) and Q.match("config_dict[self.__class__.__name__]", n.targets[0])
+           and isinstance(n.value, ast.Call) and dotted(n.value.func) == "self.config.as_dict"]
+    ok = bool(own) and Q.has("$all = OrderedDict(list(self.routines.items()) + list(self.models.items()))", c.fn)
     ctx.check(ok, "C20.save", "System.collect_config", "system + all routines + all models", "saved configuration no longer covers system, routines and models", c.W())
 
 
+def _refreshing(call):
+    """as_dict(...) call passes refresh=True"""
+    if call.args and isinstance(call.args[0], ast.Constant) and call.args[0].value is True:
+        return True
+    return any(k.arg == "refresh" and isinstance(k.value, ast.Constant) and k.value.value is True for k in call.keywords)
+
+
+def rule_cache(ctx, repo):
+    """Cache coherence of the dict view: Config fields are plain instance attributes (written by _set and by direct
+    assignment `cfg.field = v`), `_dict` is a cache of them.  Either as_dict never serves a stale cache (no caching, or a
+    __setattr__ that invalidates), or every reader that decides validity or exports values asks for a refresh."""
+    d = F.method(repo, "Config", "as_dict", COMMON)
+    rebuild = [n for n in walk_noscope(d.fn) if isinstance(n, ast.Assign) and any(dotted(t) == "self._dict" for t in n.targets)]
+    guarded = [n for n in walk_noscope(d.fn) if isinstance(n, ast.If) and any(r in list(ast.walk(n)) for r in rebuild)]
+    caching = bool(guarded) and any(Q.has("len(self._dict) == 0", g.test) or "self._dict" in src(g.test) for g in guarded)
+    invalidating = repo.has_method("Config", "__setattr__", COMMON) and "_dict" in src(repo.method("Config", "__setattr__", COMMON)[1])
+    ctx.sample("Config.as_dict caching=%s, __setattr__ invalidates=%s" % (caching, invalidating))
+    sites = [("Config", "check", COMMON, "decides whether a value is among the declared alternatives"),
+             ("System", "collect_config", SYSTEM, "exports the values written by save_config")]
+    for cls, meth, path, why in sites:
+        f = F.method(repo, cls, meth, path)
+        calls = [n for n in walk_noscope(f.fn) if isinstance(n, ast.Call) and isinstance(n.func, ast.Attribute) and n.func.attr == "as_dict"]
+        raw = [n for n in walk_noscope(f.fn) if isinstance(n, ast.Attribute) and n.attr == "_dict" and isinstance(n.ctx, ast.Load)]
+        if not calls and not raw:
+            ctx.undecided("C20.cache", "%s.%s" % (cls, meth), "does not read the dict view through as_dict()", f.W())
+            continue
+        for k, n in enumerate(calls):
+            ok = (not caching) or invalidating or _refreshing(n)
+            ctx.check(ok, "C20.cache", "%s.%s/as_dict#%d" % (cls, meth, k), "reads current field values (%s)" % why,
+                      "`%s` serves the dict view cached at construction; a field changed afterwards (update(), cfg.field = v) "
+                      "is not seen here (%s)" % (src(n), why), f.W(n))
+        for k, n in enumerate(raw):
+            ok = (not caching) or invalidating
+            ctx.check(ok, "C20.cache", "%s.%s/_dict#%d" % (cls, meth, k), "direct read of a coherent view",
+                      "reads the cached `_dict` directly (%s)" % why, f.W(n))
+
+
+def rule_ownership(ctx, repo):
+    """The parsed rc object is merged with the command-line options IN PLACE (_update_config_object mutates it), so each System
+    must own a fresh parser object: load_config_rc returns an object constructed in the same call and does not publish it."""
+    f = F.function(repo, SYSTEM, "load_config_rc")
+    upd = F.method(repo, "System", "_update_config_object", SYSTEM)
+    inplace = any(isinstance(n, ast.Call) and isinstance(n.func, ast.Attribute) and n.func.attr in ("set", "add_section", "read_dict", "update")
+                  and "_config_object" in src(n.func.value) for n in walk_noscope(upd.fn)) or \
+        any(isinstance(n, ast.Assign) and isinstance(n.targets[0], ast.Subscript) and "_config_object" in src(n.targets[0]) for n in walk_noscope(upd.fn))
+    fn = f.fn
+    rets = [n for n in walk_noscope(fn) if isinstance(n, ast.Return) and n.value is not None and not (isinstance(n.value, ast.Constant) and n.value.value is None)]
+    if not rets:
+        ctx.undecided("C20.ownership", "load_config_rc", "no value-returning exit", f.W())
+        return
+    issues = []
+    glob = [n for n in walk_noscope(fn) if isinstance(n, (ast.Global, ast.Nonlocal))]
+    for r in rets:
+        if isinstance(r.value, ast.Call) and dotted(r.value.func) in ("configparser.ConfigParser", "ConfigParser"):
+            continue
+        if not isinstance(r.value, ast.Name):
+            issues.append("returns `%s`, not an object constructed in this call" % src(r.value))
+            continue
+        name = r.value.id
+        defs = [n for n in walk_noscope(fn) if isinstance(n, ast.Assign) and any(dotted(t) == name for t in n.targets)]
+        fresh = defs and all(isinstance(x.value, ast.Call) and dotted(x.value.func) in ("configparser.ConfigParser", "ConfigParser") for x in defs)
+        if not fresh:
+            issues.append("`return %s` may return an object not constructed in this call" % name)
+        # escape: stored into anything other than a local name
+        for n in walk_noscope(fn):
+            if isinstance(n, ast.Assign) and not all(isinstance(t, ast.Name) for t in n.targets) and \
+                    any(isinstance(x, ast.Name) and x.id == name for x in ast.walk(n.value)):
+                issues.append("`%s` publishes the returned parser object" % src(n))
+            if isinstance(n, ast.Call) and isinstance(n.func, ast.Attribute) and n.func.attr in ("append", "setdefault", "add", "update", "__setitem__") and \
+                    any(isinstance(x, ast.Name) and x.id == name for a in n.args for x in ast.walk(a)):
+                issues.append("`%s` publishes the returned parser object" % src(n))
+        if glob and any(name in g.names for g in glob):
+            issues.append("`%s` is a global" % name)
+    ok = (not issues) or (not inplace)
+    ctx.check(ok, "C20.ownership", "load_config_rc/fresh-object", "every System merges its options into a parser object of its own",
+              "; ".join(issues) + " while _update_config_object merges options into it in place: options of one System leak into the next", f.W())
+
+
 def run(ctx):
+    ctx.rule("C20.cache", "readers that validate or export go through a refreshed (or non-caching) dict view", 2)
+    ctx.rule("C20.ownership", "rc parser object is fresh per load (it is mutated in place by the option merge)", 1)
     ctx.rule("C20.precedence", "Config._add skips loaded keys; load reads own section; update overwrites then checks", 3)
     ctx.rule("C20.coercion", "coercion chain int -> float -> unchanged", 1)
     ctx.rule("C20.alternatives", "alternatives enforced by check()", 1)
@@ -277,6 +369,8 @@ def run(ctx):
     ctx.assume("'every representable value' beyond the shipped defaults is declined")
     repo = Repo()
     rule_config_class(ctx, repo)
+    rule_cache(ctx, repo)
+    rule_ownership(ctx, repo)
     rule_options(ctx, repo)
     rule_constructors(ctx, repo)
     defaults = rule_tables(ctx, repo)
